@@ -190,7 +190,7 @@ package types
 //@ end
 
 //@ func (*Backends).Commit
-//@   props C05
+//@   props C05 C11
 //@   modifies b.itemsAdd, b.itemsDel, b.changedShards
 //@   ensures clean: len(b.itemsAdd) == 0 && len(b.itemsDel) == 0 && forall k int :: !in(k, b.changedShards)
 //@ end
@@ -411,4 +411,39 @@ package types
 //@   loop 3 invariant maps:  b.changedShards != nil && b.itemsAdd == old(b.itemsAdd) && b.itemsDel == old(b.itemsDel) && backendsWF(b)
 //@   loop 3 invariant adds:  forall n string :: in(n, b.itemsAdd) ==> shardFlagged(b, b.itemsAdd[n])
 //@   loop 3 invariant dels:  forall n string :: $seen(3, n) && in(n, b.itemsDel) ==> shardFlagged(b, b.itemsDel[n])
+//@ end
+
+// ---------------------------------------------------------------------------
+// C05 / C07 / C01 — removing backends in a partial sync: every removed backend
+// leaves the collection (and its shard), is remembered in itemsDel, has its
+// shard flagged for rewriting — also when the shard becomes empty — and is no
+// longer the default backend
+//@ spec func backendItemsWF(b *Backends) bool = backendsWF(b) && forall n string :: in(n, b.items) ==> b.items[n] != nil
+//@ func (*Backends).RemoveAll
+//@   props C05 C07 C01
+//@   requires wf: backendItemsWF(b)
+//@   ensures gone:    forall k int :: 0 <= k && k < len(backendID) ==> !in(backendID[k], b.items)
+//@   ensures moved:   forall n string :: old(in(n, b.items)) && !in(n, b.items) ==> in(n, b.itemsDel) && b.itemsDel[n] == old(b.items[n]) && shardFlagged(b, b.itemsDel[n]) && b.itemsDel[n] != b.DefaultBackend
+//@   ensures kept:    forall n string :: in(n, b.items) ==> old(in(n, b.items)) && b.items[n] == old(b.items[n])
+//@   ensures default: b.DefaultBackend == nil || b.DefaultBackend == old(b.DefaultBackend)
+//@   loop 1 invariant wf:    backendItemsWF(b) && b.items == old(b.items) && b.itemsDel == old(b.itemsDel) && b.changedShards == old(b.changedShards) && b.shards == old(b.shards) && 0 <= $idx(1) && $idx(1) <= len(backendID)
+//@   loop 1 invariant gone:  forall k int :: 0 <= k && k < $idx(1) ==> !in(backendID[k], b.items)
+//@   loop 1 invariant moved: forall n string :: old(in(n, b.items)) && !in(n, b.items) ==> in(n, b.itemsDel) && b.itemsDel[n] == old(b.items[n]) && shardFlagged(b, b.itemsDel[n]) && b.itemsDel[n] != b.DefaultBackend
+//@   loop 1 invariant kept:  forall n string :: in(n, b.items) ==> old(in(n, b.items)) && b.items[n] == old(b.items[n])
+//@   loop 1 invariant dflt:  b.DefaultBackend == nil || b.DefaultBackend == old(b.DefaultBackend)
+//@ end
+
+// C05 — a new hostname on an existing TCP port is a change (its sni map must be rewritten)
+//@ count AcqHost = (*TCPServicePort).acquireHost
+//@ func (*TCPServicePort).acquireHost
+//@   props C05
+//@   requires s.hosts != nil
+//@   ensures found:  result.1 == old((hostname == DefaultHost && s.defaultHost != nil) || in(hostname, s.hosts))
+//@   ensures nonnil: result.1 ==> result.0 == old((hostname == DefaultHost && s.defaultHost != nil) ? s.defaultHost : s.hosts[hostname])
+//@ end
+//@ func (*TCPServices).AcquireTCPService
+//@   props C05
+//@   requires s.items != nil
+//@   assume-pre acquireHost
+//@   ensures new-host: calls(AcqHost) == 1 && (!last(AcqHost).1 ==> s.changed)
 //@ end
